@@ -1199,6 +1199,13 @@ def batch_scenario(rng, order, base, ch0op):
                 steps.append({"do": "closeconn", "async": True})
                 steps.append({"do": "await", "ev": "recv_begin"})
             waits.append("conn")
+        elif k == "reqA" and base == "pressure":
+            steps.append(op("A", "publish", len=rng.choice([5, 2000]), pid=1))
+            waits.append("A")
+        elif k == "reqB" and base == "pressure":
+            # large enough to push the buffered writes past the (tiny) high-water mark within this wake-up
+            steps.append(op("B", "publish", len=rng.choice([4000, 9000]), pid=2))
+            waits.append("B")
         elif k == "reqA":
             if rng.random() < 0.5:
                 steps.append(dict(op("A", "qos"), **{"async": True}))
@@ -1223,7 +1230,8 @@ def batch_scenario(rng, order, base, ch0op):
     if "ch0" in order and ch0op == "open":
         steps.append(op("N", "qos"))
     steps.append({"do": "closeconn"})
-    return {"kind": "batch", "order": order, "base": base, "ch0op": ch0op, "cfg": {}, "steps": steps}
+    cfg = {"high": 300, "low": 0, "tune": [0, 4096, 0]} if base == "pressure" else {}
+    return {"kind": "batch", "order": order, "base": base, "ch0op": ch0op, "cfg": cfg, "steps": steps}
 
 
 def batches(rng, maxlen, bases, reps=1):
